@@ -449,8 +449,15 @@ def observe(ctx, obj, got):
     from spec_classes.spec_class import SpecClassMetadata
 
     shape = ctx["shape"]
-    o = {"model": describe_model(shape, ctx["names"])}
-    o["rich"] = {c.__name__: describe_rich(c, ctx["raws"][c]) for c in shape.classes}
+    tr, tid = ctx.get("tracer"), ctx.get("tid")
+    if tr is not None:
+        tr.quiet.add(tid)  # looking at the class runs library code (MISSING.__bool__, cached properties): one atomic step
+    try:
+        o = {"model": describe_model(shape, ctx["names"])}
+        o["rich"] = {c.__name__: describe_rich(c, ctx["raws"][c]) for c in shape.classes}
+    finally:
+        if tr is not None:
+            tr.quiet.discard(tid)
     if obj is not None:
         o["repr"] = repr(obj)
         o["inst_dict"] = sorted((k, repr(v)) for k, v in obj.__dict__.items())
@@ -552,6 +559,7 @@ class Tracer:
         self.pending = {}
         self.inside_boot = set()
         self.overlap = False
+        self.quiet = set()
 
     def info(self, frame):
         code = frame.f_code
@@ -569,6 +577,8 @@ class Tracer:
         return self.every_line and code.co_filename.startswith(_G["pkg_dir"])
 
     def label_of(self, frame):
+        if self.quiet and getattr(self.S._CUR, "tid", None) in self.quiet:
+            return None
         inf = self.info(frame)
         if inf is not None:
             return inf[2]
@@ -601,7 +611,7 @@ class Tracer:
             self.overlap = True
 
     def on_trace(self, tid, frame, event, arg):
-        if event != "line":
+        if event != "line" or tid in self.quiet:
             return
         p = self.pending.get(tid)
         inf = self.info(frame)
@@ -649,6 +659,7 @@ def run_case(case, policy=None):
     fns = []
     for tid, ctx in enumerate(ctxs):
         fn = THREAD_FNS[ctx["kind"]]
+        ctx["tracer"], ctx["tid"] = tr, tid
 
         def run(fn=fn, ctx=ctx, tid=tid):
             try:
@@ -896,7 +907,7 @@ def explore_sweep(tier, rng):
 
     info = {"schedules": 0, "overlapping": 0, "deadlocks": 0, "by_config": {}, "label_statements_found": _G["label_count"]}
     viol, nt, pending = [], [], []
-    budget = 50 if tier == "quick" else 560
+    budget = 34 if tier == "quick" else 520
     keep = S.keep_tracing()
     with patched_locks():
         keep.__enter__()
@@ -995,7 +1006,9 @@ def extra(tier, rng):
         info["blind"] = _G["blind"]
     info["wall_s"] = round(time.time() - t0, 1)
     info["violations_total"], info["disagreements_total"] = len(viol), len(dis)
-    # report known-finding hits first, then the rest (the framework looks at the first new one)
+    # anything that is NOT the known early-publish pattern goes first (the list is truncated)
+    viol.sort(key=lambda v: _early_publish(v["case"], v["violation"]))
+    info["violations_not_early_publish"] = sum(1 for v in viol if not _early_publish(v["case"], v["violation"]))
     return {"evaluations": n, "nontrivial": nt, "violations": viol[:400], "disagreements": dis[:50], "info": info}
 
 
